@@ -535,6 +535,15 @@ def proof_stage(chk: Check, build: Build, needed: Sequence[str]) -> bool:
         audit = audit_property(prop)
         broken += audit["problems"]
     chk.coverage["assumptions_per_theorem"] = audit["theorems"]
+    if not broken and chk.tier == "thorough" and os.environ.get("VERIF_COQCHK", "1") != "0":
+        # independent re-check of the compiled property file and everything it
+        # depends on, with the list of axioms of every loaded library
+        r = sh(["timeout", "1500", "coqchk", "-silent", "-o", "-Q", "theories", "LQ", f"LQ.Properties.{prop}"],
+               cwd=COQ, timeout=1600)
+        tail = r.stdout[-3000:]
+        chk.coverage["coqchk"] = {"rc": r.returncode, "summary": tail[tail.find("CONTEXT SUMMARY"):][:2500] if "CONTEXT SUMMARY" in tail else tail[-800:]}
+        if r.returncode != 0:
+            broken.append("coqchk failed: " + tail[-400:])
     chk.coverage["discharged"] = 0 if broken else len(stmts)
     chk.coverage["broken_obligations"] = [
         (b + ": " + build.failed.get(b, ""))[:600] for b in broken]
